@@ -135,11 +135,14 @@ func (r *reader) ConsumeByKey(key []byte, keyHash []byte, offset, maxCount int64
 		return OffsetInvalid, nil, err
 	}
 
+	// take the next offset before looking up the key: if a message is published in between,
+	// it is then either returned or left for the next call, but never skipped
+	nextOffset, err := ix.GetNextOffset()
+	if err != nil {
+		return OffsetInvalid, nil, err
+	}
+
 	if offset == OffsetNewest {
-		nextOffset, err := ix.GetNextOffset()
-		if err != nil {
-			return OffsetInvalid, nil, err
-		}
 		return nextOffset, nil, nil
 	}
 
@@ -148,10 +151,6 @@ func (r *reader) ConsumeByKey(key []byte, keyHash []byte, offset, maxCount int64
 	case nil:
 		break
 	case index.ErrKeyNotFound:
-		nextOffset, err := ix.GetNextOffset()
-		if err != nil {
-			return OffsetInvalid, nil, err
-		}
 		return nextOffset, nil, nil
 	default:
 		return OffsetInvalid, nil, err
@@ -181,10 +180,6 @@ func (r *reader) ConsumeByKey(key []byte, keyHash []byte, offset, maxCount int64
 	}
 
 	if len(msgs) == 0 {
-		nextOffset, err := ix.GetNextOffset()
-		if err != nil {
-			return OffsetInvalid, nil, err
-		}
 		return nextOffset, nil, nil
 	}
 
